@@ -108,5 +108,8 @@ Arguments chunks {X}. Arguments batched {X St}. Arguments add_batch {X St}.
 Definition table_of (k : wkind) (ws : list write) : list (string * (string * N)) :=
   fold_left (fun t w =>
     if match fst w, k with WVertex, WVertex | WEdge, WEdge => true | _, _ => false end
+       && negb (String.eqb (b_gid (snd w)) "")        (* edges without id get a generated one: counted by anon_edges *)
     then let e := snd w in (b_gid e, (b_label e, b_val e)) :: filter (fun p => negb (String.eqb (fst p) (b_gid e))) t
     else t) ws [].
+Definition anon_edges (ws : list write) : nat :=
+  List.length (filter (fun w => match fst w with WEdge => String.eqb (b_gid (snd w)) "" | WVertex => false end) ws).
